@@ -136,7 +136,11 @@ func c08(r *ev.Result, tier string) {
 	cache0 := filepath.Join(base, "probe", "sub", "cert.txtar")
 	cert0, err, _ := c08Get(cache0, nil, nil)
 	if nil != err {
-		ev.Broken("generating run failed: %s", err)
+		/* The very first start, on a cache path two directories below
+		anything that exists, does not work: that is the first clause of
+		the property ("a missing file is simply regenerated"). */
+		v("generating-run-failed", fmt.Sprintf("the first start on a fresh cache path (two missing directory levels) failed: %v", err), c08Case{Kind: "dirs"})
+		return
 	}
 	if 0 == len(vos.Log) {
 		ev.Broken("the vos shim is not linked into lib/sstls (wrong build flavour)")
